@@ -2,7 +2,8 @@
    Statements only; the model is theories/Forest/Traverse.v (Node.iterator, Tree.iterator,
    Node.visit, Tree.visit, call_traversal_cb), proofs are in TraverseProofs.v (once-only,
    pre/post), TraverseLevelOrd.v (level orders, fuel), TraverseVisit.v / TraverseSkip.v
-   (continue / skip callbacks), TraverseStop.v (stop signals, errors), TraverseSpec.v.
+   (continue / skip callbacks), TraverseStop.v (stop signals, errors), TraverseDyn.v (arbitrary
+   stateful callbacks), TraverseSpec.v.
 
    Vocabulary (all defined on the tree structure, none by the recursion of the model):
      before l x y        x occurs strictly before y in the list l
@@ -14,7 +15,7 @@
      branch t a          the nodes of start node t's branch (with t iff a = add_self)
      subseq l m          l is a subsequence of m *)
 From Coq Require Import List ZArith Bool Arith Permutation.
-From NT Require Import Sx Rose Traverse TraverseProofs TraverseLevelOrd TraverseVisit TraverseSkip TraverseStop TraverseSpec.
+From NT Require Import Sx Rose Traverse TraverseProofs TraverseLevelOrd TraverseVisit TraverseSkip TraverseStop TraverseDyn TraverseSpec.
 From NTGen Require Import Generated.
 Import ListNotations.
 
@@ -230,6 +231,54 @@ Theorem C06_halt_at_node : forall (cb : cbT) (s : rt) (m : meth) (add_self : boo
   (exists l1 l2, map rid l = l1 ++ n :: l2 /\ ~ In n l1 /\ visit cb s m add_self = (l1 ++ [n], vres_of h)).
 Proof. exact visit_stop_at_node. Qed.
 Print Assumptions C06_halt_at_node.
+
+(* ------------------------------------------------------------------ *)
+(* 4b. arbitrary stateful callbacks                                    *)
+(* ------------------------------------------------------------------ *)
+
+(* whatever the callback answers: no node is called twice and the calls follow the iterator's order *)
+Theorem C06_any_callback_calls_in_iterator_order :
+  forall (cb : cbT) (s : rt) (m : meth) (add_self : bool) (l : list rt),
+  visit_supported m = true -> iterator s m add_self = Some l ->
+  subseq (fst (visit cb s m add_self)) (map rid l).
+Proof. exact visit_subseq_any. Qed.
+Print Assumptions C06_any_callback_calls_in_iterator_order.
+
+Theorem C06_any_callback_no_repetition : forall (cb : cbT) (s : rt) (m : meth) (add_self : bool),
+  NoDup (ids_t s) -> NoDup (fst (visit cb s m add_self)).
+Proof. exact visit_nodup_any. Qed.
+Print Assumptions C06_any_callback_no_repetition.
+
+(* visit depends on the callback only through its answers to the calls actually made *)
+Theorem C06_visit_determined_by_answers : forall (cb1 cb2 : cbT) (s : rt) (m : meth) (add_self : bool),
+  along (Agr cb1 cb2) [] (fst (visit cb1 s m add_self)) -> visit cb2 s m add_self = visit cb1 s m add_self.
+Proof. exact visit_agree. Qed.
+Print Assumptions C06_visit_determined_by_answers.
+
+(* skip, for a stateful callback that never halts: suppressed are exactly the nodes below a node whose
+   call answered Skip (skipped_dyn cb s tr y := exists x k, nth_error tr k = Some x /\
+   call_cb cb x (firstn k tr) = Skip /\ anc_t s x y) *)
+Theorem C06_skip_any_callback :
+  forall (cb : cbT) (s : rt) (m : meth) (add_self : bool) (l : list rt),
+  never_halts cb -> m = PRE \/ m = LEVEL -> NoDup (ids_t s) -> iterator s m add_self = Some l ->
+  exists tr, visit cb s m add_self = (tr, VReturn None) /\ subseq tr (map rid l) /\
+    forall y, In y tr <-> (In y (map rid l) /\ ~ skipped_dyn cb s tr y).
+Proof. exact visit_dyn_skip. Qed.
+Print Assumptions C06_skip_any_callback.
+
+(* the run of ANY callback, pre-order and level order: iterator order, minus what lies below a call
+   answered Skip, cut after the first call answered with a stop signal or an error *)
+Theorem C06_any_callback_run :
+  forall (cb : cbT) (s : rt) (m : meth) (add_self : bool) (l : list rt),
+  m = PRE \/ m = LEVEL -> NoDup (ids_t s) -> iterator s m add_self = Some l ->
+  exists tr tr' r,
+    visit cb s m add_self = (tr, r) /\ visit (mute cb) s m add_self = (tr', VReturn None) /\
+    subseq tr' (map rid l) /\
+    (forall y, In y tr' <-> (In y (map rid l) /\ ~ skipped_dyn (mute cb) s tr' y)) /\
+    ((quiet cb [] tr /\ tr = tr' /\ r = VReturn None) \/
+     (exists h, halted cb [] tr h /\ (exists rest, tr' = tr ++ rest) /\ r = vres_of h)).
+Proof. exact visit_any_callback. Qed.
+Print Assumptions C06_any_callback_run.
 
 (* ------------------------------------------------------------------ *)
 (* 5. obligations on the tables lifted from the source on this run     *)
